@@ -45,6 +45,9 @@ def coq_stmt(s):
     if op == "guarded": return "SGuarded %d %s" % (s[1], coq_prog(s[2]))
     if op == "ignore": return "SIgnore %s" % ("true" if s[1] else "false")
     if op == "probe": return "SProbe"
+    if op == "permute": return "SPermute %d poseidon_%s %d" % (s[1], s[2], s[3])
+    if op == "poseidon": return "SPoseidon %d poseidon_%s %d" % (s[1], s[2], s[3])
+    if op == "ggh": return "SGgh %d [%s] %d" % (s[1], "; ".join(str(x) for x in s[2]), s[3])
     if op == "pack": return "SPack %d %s %d" % (s[1], coq_schema(s[2]), s[3])
     if op == "unpack": return "SUnpack %d %s %d" % (s[1], coq_schema(s[2]), s[3])
     if op == "snark": return "SSnark %d [%s] %s %s" % (s[1], "; ".join(coq_rtree(t) for t in s[2]), coq_prog(s[3]), coq_rtree(s[4]))
@@ -88,7 +91,7 @@ def coq_case(case, dig):
                                             "; ".join(str(d) for d in dig))
 
 
-HDR = ("From Coq Require Import ZArith List.\nFrom PySnark.Model Require Import Util Lc Sym Gadgets Api Prog.\nFrom PySnark.Proofs Require Import Meta.\n"
+HDR = ("From Coq Require Import ZArith List.\nFrom PySnark Require Import GeneratedPoseidon.\nFrom PySnark.Model Require Import Util Lc Sym Gadgets Api Prog.\nFrom PySnark.Proofs Require Import Meta.\n"
        "Import ListNotations.\nOpen Scope Z_scope.\n")
 
 
